@@ -2024,6 +2024,13 @@ func TestVerifC14(t *testing.T) {
 		r.Count("ms_canon_parsigex", int(time.Since(t0).Milliseconds()))
 	}
 
+	// ---- valid values of realistic size, exactly at size boundaries (zz_verif_c14size_test.go) ------------------
+	if only == "" || only == "size" {
+		t0 := time.Now()
+		e.partSizes(t)
+		r.Count("ms_sizes", int(time.Since(t0).Milliseconds()))
+	}
+
 	// ---- small-scope values of every integer field (zz_verif_c14ints_test.go) ----------------------------
 	r.Count("cpu_ms_parts_a_b_frames", c14cpuMs())
 	if os.Getenv("VERIF_C14_SKIP_INTS") == "" {
